@@ -352,8 +352,12 @@ def eval_sched(ctx, cases, env=None, variant=None):
         for st, kl in zip(cases, kn):
             kf = core.dec_line(kl)
             py_counts = ",".join(str(o[2] - o[1]) for o in flow(st))
-            if len(kf) != 2 or (kf[0] == "1") != known_inline(st) or kf[1] != py_counts:
+            if len(kf) != 3 or (kf[0] == "1") != known_inline(st) or kf[1] != py_counts:
                 raise core.CheckBroken("known-class predicate: Coq %r vs python (%r, %s) on %r" % (kf, known_inline(st), py_counts, st))
+            # the python flow oracle and Coq's spec_out (the function of c11_output_complete) are the same function
+            last = flow(st)[-1]
+            if [r for r in ranges_to_flow(kf[2])] != ([last] if last[2] > last[1] else []):
+                raise core.CheckBroken("flow oracle: Coq spec_out %r vs python %r on %r" % (kf[2], last, st))
     else:
         model, mruns = [None] * len(cases), [None] * len(cases)
         want_hang = [known_inline(st) for st in cases]
